@@ -14,6 +14,7 @@ CHECKS = {
              "oracle: independent RIFF/VP8/VP8L structural validator (riffwalk) + declared size/alpha/partition count vs request + package readers accept + libwebp 1.2.4 (dlopen) and golang.org/x/image "
              "decode the same bytes to the same samples as webp.Decode (Y/U/V planes for lossy, RGBA via a reference fancy upsampler for lossy+alpha, ARGB for lossless). "
              "Non-trivial: >=2 colours; distinct = (codec, Method, metadata presence/parity, payload parities, partitions, segments, filter type/level0, Pass, target mode, sharp, preprocessing). "
+             "(write faults) for a sixth of the cases Encode is repeated with writers that fail after k bytes (k = 0, 1, 11, 12, 19, 20, 29, 30, len-2, len-1 and one drawn position): Encode must not return nil once the writer has failed. "
              "(limits) TestC02Limits: noise pictures of 70,000-160,000 macroblocks (long side up to 16383) at Quality 35-80, Method 3-6, so that partition 0 lies between ~320 KB and ~740 KB, i.e. on both sides of the frame tag's 19-bit length field; thorough also 16383 x 3600-4300 at Quality 100 with 2-4 partitions so that a token partition exceeds its 24-bit size field. Encode may refuse (counted encode=refused); a nil error must come with a file that validates and that all three decoders accept identically.",
         assumptions=["libwebp.so.7 (1.2.4) and x/image as independent decoders; a case where they disagree with each other is counted inconclusive, never a violation",
                      "riffwalk strictness = what a conforming writer must respect (chunk order VP8X,ICCP,ANIM,image,EXIF,XMP; flags <=> chunks; pad bytes zero)"],
@@ -72,7 +73,7 @@ CHECKS = {
     ),
     "C05": dict(
         level="exploration",
-        rule="inputs: 1-4 rapid-drawn mutations (bit flips, hostile byte values, chunk size-field rewrites incl. 0/1/odd/len+-k/0x7fffffff/0xffffffff, dimension rewrites, chunk delete/duplicate/move, FourCC swaps, truncation, random tails, inserts, 0x00/0xff runs, splices across seeds) of ~25 small valid files (package encoder: lossy 1/4/8 partitions, lossy+alpha raw/compressed/quantised, lossless, metadata; animation encoder lossless/lossy/mixed; muxer; /verif's VP8 and VP8L generators incl. predictor modes 14/15 and 15-bit codes; libwebp-written; repo testdata), freshly generated free-mode VP8L/VP8 streams (intact or mutated), random bytes behind a valid magic, and container programs with lying size fields. "
+        rule="inputs: 1-4 rapid-drawn mutations (bit flips, hostile byte values, chunk size-field rewrites incl. 0/1/odd/len+-k/0x7fffffff/0xffffffff, dimension rewrites, chunk delete/duplicate/move, FourCC swaps, truncation, random tails, inserts, 0x00/0xff runs, splices across seeds) of ~25 small valid files (package encoder: lossy 1/4/8 partitions, lossy+alpha raw/compressed/quantised, lossless, metadata; animation encoder lossless/lossy/mixed; muxer; /verif's VP8 and VP8L generators incl. predictor modes 14/15 and 15-bit codes; libwebp-written; repo testdata), freshly generated free-mode VP8L/VP8 streams (intact or mutated), a multi-damage mutation that makes several frames of one file undecodable at once, 14-frame animations, GOMAXPROCS drawn from {as is,1,2,3,4} per case (worker counts of the frame-parallel reader), random bytes behind a valid magic, and container programs with lying size fields. "
              "Every input goes through Decode, DecodeConfig, GetFeatures, image.Decode/DecodeConfig, animation.DecodeBytes+DecodeFrames+DecodeFramesParallel+AnimDecoder playback, mux.NewDemuxer+Frame(i)+GetChunk+iterator. "
              "Oracle: no panic, returns within a watchdog limit of 30 s + 1 ms per 20,000 declared pixels (an expiry must reproduce with six times that limit before it counts), well-formed results (positive bounds, buffers large enough), bytes allocated <= 64 MiB + 64 x (input length + 4 x declared pixels). "
              "Non-trivial: input still carries the RIFF/WEBP magic; distinct = (source, seed, mutation kinds, which entry points accepted). Thorough adds a native coverage-guided fuzz campaign over the same entry points.",
@@ -101,7 +102,7 @@ CHECKS = {
     ),
     "C08": dict(
         level="exploration",
-        rule="rapid draws frame sequences for the lossless animation encoder: canvas 1..24 (thorough ..64), 1-8 (..14) pictures each derived from the previous one (identical / scattered small-rectangle edit / single pixel / large edit / alpha-only edit / border edit / smaller-than-canvas picture / new picture) over opaque, binary, flat semi-transparent, few-level, gradient, noise and fully transparent content; durations small, zero-mixed, or near 2^24-1 with sums crossing it; Kmin/Kmax in {0,1,2,3,5,9,100,1000}; loop counts incl. >65535 and <0; Quality in {0,50,75,100}. "
+        rule="rapid draws frame sequences for the lossless animation encoder: canvas 1..24 (thorough ..64; 1 in 40 sequences 64..220 px per side with <= 4 frames), sprite-like pictures with fully transparent margins, a first picture that may be smaller than the canvas, 1-8 (..14) pictures each derived from the previous one (identical / scattered small-rectangle edit / single pixel / large edit / alpha-only edit / border edit / smaller-than-canvas picture / new picture) over opaque, binary, flat semi-transparent, few-level, gradient, noise and fully transparent content; durations small, zero-mixed, or near 2^24-1 with sums crossing it; Kmin/Kmax in {0,1,2,3,5,9,100,1000}; loop counts incl. >65535 and <0; Quality in {0,50,75,100}. "
              "Oracle: expected timeline = input canvases (smaller pictures at (0,0) on transparent) with consecutive identical ones merged; actual = DecodeBytes+DecodeFrames+AnimDecoder snapshots merged the same way; pictures equal in order (alpha-0 pixels equal whatever their colour), canvas size equal, and with >=2 distinct pictures per-picture display time, total duration and (clamped) loop count equal; every file passes riffwalk. "
              "Non-trivial: >=2 distinct pictures and a sub-frame, merged duplicate or forced key frame; distinct = (alpha class, edit kinds, Kmin/Kmax, blend/dispose modes in the file, sub-frame/merge/filler seen).",
         assumptions=["frame durations are generated in 0..2^24-1 ms (a single duration above the container's 24-bit field cannot be stored)"],
@@ -109,7 +110,7 @@ CHECKS = {
     ),
     "C18": dict(
         level="exploration",
-        rule="rapid draws frame sequences with binary, few-level, gradient, noise, flat semi-transparent and coloured-transparent alpha x Lossless {false,true} x AllowMixed {false,true} x Quality {0,30,75,95,100} x keyframe settings; durations >= 1 ms. "
+        rule="rapid draws frame sequences (canvas 1..24, thorough ..56; 1 in 40 sequences 64..220 px per side; sprite-like pictures with transparent margins) with binary, few-level, gradient, noise, flat semi-transparent and coloured-transparent alpha x Lossless {false,true} x AllowMixed {false,true} x Quality {0,30,75,95,100} x keyframe settings; durations >= 1 ms. "
              "Oracle: input and playback are compared as step functions of presentation time: every played-back canvas that is on screen during an input picture's interval has exactly that picture's alpha channel; total duration and canvas size equal (a single picture stored as a still must carry that alpha). "
              "Non-trivial: a non-opaque pixel exists and the file contains a lossy (VP8) frame; distinct = (mode pair, alpha class, codecs emitted, sub-frames, length).",
         assumptions=["lossy pictures are not exact, so frames are aligned by time, not by picture equality"],
@@ -117,7 +118,7 @@ CHECKS = {
     ),
     "C14": dict(
         level="exploration",
-        rule="rapid draws Muxer call sequences (1-14 ops; an AddFrame may be repeated 200-10001 times: long animations around the 1000-chunk and 10000-frame limits): AddFrame with real VP8/VP8L bitstreams from a pool of 35 (lossy, lossless, lossy with compressed and raw ALPH prefix, VP8L with alpha bit; odd and even payload lengths) and FrameOptions (nil; offsets even/odd; durations incl. 0, >2^24-1 and negative = documented clamping; blend; dispose), SetFrameDisposeMode/SetFrameDuration on valid and invalid indices, SetCanvasSize (incl. 0, clamped values), SetLoopCount (clamped), SetBackgroundColor, SetICCProfile/SetEXIF/SetXMP/AddChunk with nil/empty/odd/even/chunk-like blobs; then Assemble. "
+        rule="rapid draws Muxer call sequences (1-14 ops; an AddFrame may be repeated 200-10001 times: long animations around the 1000-chunk and 10000-frame limits): AddFrame with real VP8/VP8L bitstreams from a pool of 35 (lossy, lossless, lossy with compressed and raw ALPH prefix, VP8L with alpha bit; odd and even payload lengths) and FrameOptions (nil; offsets even/odd; durations incl. 0, >2^24-1 and negative = documented clamping; blend; dispose), SetFrameDisposeMode/SetFrameDuration on valid and invalid indices, SetCanvasSize (incl. 0, clamped values), SetLoopCount (clamped), SetBackgroundColor, SetICCProfile/SetEXIF/SetXMP/AddChunk with nil/empty/odd/even/chunk-like/format-signature blobs and lengths around powers of two (2^k-9..2^k+9, k<=12); then Assemble (and, for accepted states, Assemble again into writers that fail after k bytes: it must report the failure). "
              "Oracle: a model of the muxer state predicts acceptance and structure. Accepted: riffwalk validates the file; mux.Demuxer AND container.Parser return the same bitstreams and ALPH payloads byte for byte, offsets rounded down to even, clamped durations, blend/dispose, loop count, background colour, canvas, metadata; GetFeatures agrees; stills decode to the same pixels as their bitstream alone. Rejected: an error, and nothing that parses as a complete file was written; consistent states must not be rejected, frames outside the canvas must be. "
              "Non-trivial: alpha-prefixed frame, >=2 frames or metadata; distinct = (animated, frame count, setters used, payload parities, fits).",
         assumptions=["offsets non-negative; canvas area kept below the package's 2^30-pixel reader cap; for stills with an explicit canvas different from the picture the strict still-canvas rule of riffwalk is not applied"],
@@ -180,7 +181,7 @@ CHECKS = {
     ),
     "C03": dict(
         level="exploration",
-        rule="two stream sources. (gen) VP8L bitstreams written by /verif's own generator from the lossless specification: any subset and order of the four transforms (each at most once) with tile bits 2-9, palette sizes {1,2,3,4,5,16,17,100,255,256} (all packings), predictor modes 0-13 per tile (rarely 14/15), random cross-colour multipliers; colour cache bits 0-11; optional meta prefix image with prefix bits 2-9 and 1-1100 groups incl. an unreferenced group; prefix codes in simple (1-2 symbols, 1- and 8-bit form, either transmission order) and normal form (complete length-limited codes <=15 from balanced, random and deep trees - deep: padded with never-occurring symbols so that 13-15-bit codewords are used by the occurring symbols -, single-symbol codes, code-length code with 16/17/18 repeat tokens and the max_symbol form); pixel stream of literals, colour-cache hits and backward references with every plane distance code 1-120 and linear distances, lengths up to 4096 incl. overlapping copies (a long-copy class draws lengths uniformly up to 4096); sub-images with their own caches and references. (libwebp) pictures encoded by libwebp 1.2.4's lossless encoder. "
+        rule="two stream sources. (gen) VP8L bitstreams written by /verif's own generator from the lossless specification: any subset and order of the four transforms (each at most once) with tile bits 2-9, palette sizes {1,2,3,4,5,16,17,100,255,256} (all packings), predictor modes 0-13 per tile (rarely 14/15), random cross-colour multipliers; colour cache bits 0-11; optional meta prefix image with prefix bits 2-9 and 1-1100 groups incl. an unreferenced group; prefix codes in simple (1-2 symbols, 1- and 8-bit form, either transmission order) and normal form (complete length-limited codes <=15 from balanced, random and deep trees - deep: padded with never-occurring symbols so that 13-15-bit codewords are used by the occurring symbols -, single-symbol codes, code-length code with 16/17/18 repeat tokens and the max_symbol form); pixel stream of literals, colour-cache hits and backward references with every plane distance code 1-120 and linear distances, lengths up to 4096 incl. overlapping copies (a long-copy class draws lengths uniformly up to 4096); sub-images with their own caches and references; trivial groups (all five codes single-symbol, zero bits per pixel) next to ordinary groups; sizes <=40 (thorough <=96) px per side, 1 stream in 120 (thorough 50) of >= 100,000 pixels in ordinary, very wide and very tall shapes, 1 in 80 with the format's largest side (16384, 16383, 8193, ...) x 1-3. (libwebp) pictures encoded by libwebp 1.2.4's lossless encoder. "
              "Oracle: webp.Decode must accept and return exactly the ARGB that libwebp AND x/image/vp8l return (both must accept and agree; otherwise the case is inconclusive); for libwebp-encoded pictures also the source pixels. "
              "Non-trivial: stream has a transform, backward reference, cache hit or more than one group; distinct = (transform order with tile bits/palette class, cache bits, meta bits/groups, code style, feature set). "
              "Every generated stream is also put through /verif's strict VP8L syntax validator (an independent reading of the syntax; disagreements are counted). Thorough adds a native coverage-guided campaign (FuzzC03) over raw VP8L bytes (<=16384 pixels, seeded with 48 generated streams): bytes that the strict validator accepts AND that x/image (consulted first: memory-safe) and then libwebp decode to the same pixels must be accepted by the package with the same pixels; a saved input only counts if it fails again when run alone.",
